@@ -959,6 +959,9 @@ class Interp:
         if op in (ast.Is, ast.IsNot):
             r = a is b
             return r if op is ast.Is else not r
+        if op in (ast.Eq, ast.NotEq) and (isinstance(a, (SBytes, bytes)) != isinstance(b, (SBytes, bytes))) \
+                and not isinstance(a, (SInt, SBool)) and not isinstance(b, (SInt, SBool)) and (a is None or b is None or isinstance(a, (str, int)) or isinstance(b, (str, int))):
+            return op is ast.NotEq          # bytes never equal None / str / int (Python semantics)
         if isinstance(a, (SBytes, bytes)) and isinstance(b, (SBytes, bytes)) and (isinstance(a, SBytes) or isinstance(b, SBytes)):
             r = self.e.bytes_eq(a, b)
             if op is ast.Eq: return r
@@ -1124,6 +1127,8 @@ class Interp:
     def smap_get(self, m, key):
         # newest matching entry wins; group by value shape; fork over feasible shapes (+ miss)
         ents = m.entries
+        if not isinstance(key, (bytes, SBytes)):
+            raise Raised(KeyError(key))          # only byte strings are ever stored as keys
         eqs = []
         for (k, v) in ents:
             r = self.e.bytes_eq(k, key)
